@@ -13,7 +13,8 @@ BITLENS = [1, 2, 3, 4, 5, 7, 8, 9, 12, 15, 16, 17, 24, 31, 32, 33, 40, 48, 63, 6
 ASCII = "AZaz09 _-"
 LATIN = ASCII + "éßÄ"
 UTF8 = ASCII + "é€中"
-UCS2 = "Az0é€中"
+# (U+0100, U+00FF and U+FF21 make 00 00 / FF FF byte pairs that straddle two code units: not terminators)
+UCS2 = "Az0é€中Āÿ\uff21"
 
 
 class G:
@@ -105,7 +106,20 @@ class G:
             if self.opts.get("condensed") and self.chance(50):
                 dct["cond"] = True
                 self.features.add("condensed-mask")
-        return {"k": "simple", "id": self.nid("dop"), "dct": dct, "compu": compu, "pt": pt}
+        out = {"k": "simple", "id": self.nid("dop"), "dct": dct, "compu": compu, "pt": pt}
+        self.display_hints(out)
+        return out
+
+    def display_hints(self, dop):
+        """PRECISION / DISPLAY-RADIX of the PHYSICAL-TYPE: hints for presenting values, without effect on them"""
+        if not self.opts.get("display_hints", True):
+            return
+        if dop["pt"] in ("A_FLOAT32", "A_FLOAT64") and self.chance(30):
+            dop["precision"] = self.pick([0, 1, 2])
+            self.features.add("physical-type:precision")
+        elif dop["pt"] in ("A_UINT32", "A_INT32") and self.chance(10):
+            dop["radix"] = self.pick(["HEX", "DEC", "BIN", "OCT"])
+            self.features.add("physical-type:display-radix")
 
     def simple_value(self, dop) -> Any:
         """draw a physical value valid for a simple DOP (as image of a valid internal value)"""
@@ -141,10 +155,12 @@ class G:
                 compu["lo"] = max(compu["lo"], 1)     # (no signed zeroes: -1 * 0.0 is -0.0, equal but not bit-identical)
             pt = "A_FLOAT64"
             self.features.add("compu:LINEAR-float-coded")
-        return {"k": "simple", "id": self.nid("dop"),
-                "dct": {"t": "std", "bt": bt, "bl": 32 if bt == "A_FLOAT32" else 64, "enc": None,
-                        "hl": self.pick([None, True, False])},
-                "compu": compu, "pt": pt}
+        out = {"k": "simple", "id": self.nid("dop"),
+               "dct": {"t": "std", "bt": bt, "bl": 32 if bt == "A_FLOAT32" else 64, "enc": None,
+                       "hl": self.pick([None, True, False])},
+               "compu": compu, "pt": pt}
+        self.display_hints(out)
+        return out
 
     def str_params(self):
         bt = self.pick(["A_ASCIISTRING", "A_UTF8STRING", "A_UNICODE2STRING"])
